@@ -163,7 +163,9 @@ def _rt_chunk(first):
 
 def fault_frames():
   """Yields (label, header_bytes_served, payload_served_or_None)."""
-  for cmd, payload in [(c, b'ab') for c in CMDS] + [('OKAY', b''), ('CLSE', b''), ('WRTE', b'\x00'), ('WRTE', b'\xff\xff\xff')]:
+  big = bytes((i * 7) % 251 for i in range(4096))      # a payload exactly at the usual maxdata
+  for cmd, payload in [(c, b'ab') for c in CMDS] + [('OKAY', b''), ('CLSE', b''), ('WRTE', b'\x00'), ('WRTE', b'\xff\xff\xff'),
+                                                     ('WRTE', big), ('WRTE', big[:4095])]:
     h = ref_header(cmd, 3, 4, payload)
     base = '%s/%d' % (cmd, len(payload))
     for bit in range(192):
@@ -171,7 +173,7 @@ def fault_frames():
       hb[bit // 8] ^= 1 << (bit % 8)
       yield ('%s:flip%d' % (base, bit), bytes(hb), payload)
     w, a0, a1, n, ck, mg = struct.unpack('<IIIIII', h)
-    for dn in (-1, 1):
+    for dn in (-1, 1, 4096, 0x7fffffff - n):
       if n + dn >= 0:
         yield ('%s:len%+d' % (base, dn), struct.pack('<IIIIII', w, a0, a1, n + dn, ck, mg), payload)
       yield ('%s:sum%+d' % (base, dn), struct.pack('<IIIIII', w, a0, a1, n, (ck + dn) & 0xffffffff, mg), payload)
